@@ -671,6 +671,7 @@ func runC14(c *evid.Ctx) {
 			c14RunScript(c, sc, c.Seed*1009+int64(i)+int64(r)*100000)
 		}
 	}
+	c14LateClose(c)
 	// stress under perturbation
 	ctl := sched.New()
 	ctl.Perturb(c.Seed, 0.3)
